@@ -120,6 +120,15 @@ func verifyFunction(P *Program, S *Specs, key string) (res *FuncResult) {
 			}
 			f.env[fv] = v
 		}
+		if fn.Synthetic == "package initializer" && fn.Pkg != nil {
+			// the runtime runs a package initializer exactly once, before anything else of the package: its guard is unset
+			if g, ok := fn.Pkg.Members["init$guard"].(*ssa.Global); ok {
+				t := g.Type().(*types.Pointer).Elem()
+				h := c.globalHeap(fn.Pkg.Pkg.Path(), g.Name(), t)
+				c.assert("(not (select " + st.get(h) + " 1))")
+				c.note("package initializer verified from its first (only) run: init$guard is false on entry")
+			}
+		}
 		st.heap[c.ghostVar("$alloc", "Int")] = "0"
 		for gname, srt := range S.GhostVars {
 			_ = c.ghostVar(gname, x.resolveSort(srt))
